@@ -16,8 +16,10 @@ Exhaustive enumeration (driver E1) of whole families of nested dictionaries:
     unchanged; intersection() == {};
   * typed arguments: every ordered pair of a small family with lists among the leaves is run through the
     same laws with one or both arguments made of a subtype of dict (lena.context.Context, a bare user
-    subclass, OrderedDict; only the outermost dictionary or every dictionary): same values, a deep copy
-    (the id-graph follows subtypes), arguments unchanged including the types of their containers;
+    subclass, OrderedDict, and collections.defaultdict - the dictionary with the __missing__ hook, where
+    item access with an absent key creates the item instead of raising KeyError; only the outermost
+    dictionary or every dictionary): same values, a deep copy (the id-graph follows subtypes), arguments
+    unchanged including the types of their containers;
   * string form: update_recursively(d, "a.b", value) == update_recursively(d, {"a": {"b": value}}) (the
     reference merge) for every d of two families, every key string of 1..3 components and every kind of
     explicit value (falsy and truthy scalars, containers, strings that read like a key or a dotted
@@ -64,6 +66,11 @@ ASSUMPTIONS = [
     "a dictionary is any instance of dict: intersection documents 'a dictionary or its subtype (copied "
     "from dicts[0])'; the type of the result is recorded as an outcome, not judged; results are "
     "compared with the reference by ==, so an OrderedDict counts as the dictionary with its items",
+    "the items of a collections.defaultdict (a dict subtype whose item access creates absent items through "
+    "__missing__) are the ones it holds - what 'in', iteration and == say; a default that was never stored "
+    "is not an item, and looking into the dictionary must not store one. Subtypes whose __missing__ "
+    "answers without storing (collections.Counter, whose own == counts an absent key as 0) are not in the "
+    "alphabet: whether such a default is an item is an open point",
     "key strings of the string form have non-empty components from {a, b} (empty components have no "
     "documented meaning); the explicit value is arbitrary and is never interpreted",
 ]
@@ -280,6 +287,26 @@ def _makers(p1, p2, variant):
     return maker(p1, 1), maker(p2, 2)
 
 
+def _lacks_key_of(pa, pb, deep):
+    """The dictionary pa lacks a key that pb has (deep: also a nested dictionary of pa against the
+    dictionary pb holds at the same place)."""
+    for k, w in pb.items():
+        if k not in pa:
+            return True
+        if deep and R.isdict(pa[k]) and R.isdict(w) and _lacks_key_of(pa[k], w, True):
+            return True
+    return False
+
+
+def _hook_matters(p1, p2, tv):
+    """Non-vacuity of the __missing__ kinds: an argument made of such a type lacks a key of the other
+    argument, i.e. an item access instead of a membership test would create an item there."""
+    if tv[0] not in T.MISSING_HOOK_KINDS:
+        return False
+    deep = tv[1] == "all"
+    return (1 in tv[2] and _lacks_key_of(p1, p2, deep)) or (2 in tv[2] and _lacks_key_of(p2, p1, deep))
+
+
 def _typed_case(case, cause, tv):
     if tv:
         return dict(case, typed=[tv[0], tv[1], list(tv[2])]), dict(cause, argument_type=tv[0])
@@ -306,6 +333,7 @@ def check_pair(res, p1, p2, levels, keys, commut=True, only=None, typed=()):
         alias = variant == "aliased"
         tv = variant if isinstance(variant, tuple) else None
         mk1, mk2 = _makers(p1, p2, variant)
+        hook = bool(tv) and _hook_matters(p1, p2, tv)
 
         def _viol(c, observed, expected, cause):
             if alias:
@@ -396,6 +424,8 @@ def check_pair(res, p1, p2, levels, keys, commut=True, only=None, typed=()):
                 res.count("pairs_with_shared_subdictionaries")
             if tv:
                 res.count("level_cases_with_arguments_of_a_dict_subtype")
+                if hook:
+                    res.count("level_cases_where_a_defaultdict_argument_lacks_a_key_of_the_other")
                 if R.isdict(inter):
                     _outcome(res, "T", type(inter).__name__)
         # the arguments survived all levels: typed comparison once more
@@ -1022,15 +1052,17 @@ LEVEL_TEXT = ("bounded exhaustive exploration: every ordered pair of every neste
               "{-1, 0, 1, 2, 3}, plus every ordered triple of the 144-dictionary family, is executed on the "
               "real intersection / difference / update_recursively / update_nested and judged against a "
               "containment / greatest-lower-bound / merge reference and the algebraic laws; the pairs of a "
-              "36-dictionary family (thorough 144) also with arguments made of three subtypes of dict "
-              "(lena's Context, a bare subclass, OrderedDict), and the string form of update_recursively "
+              "36-dictionary family (thorough 144) also with arguments made of five subtypes of dict "
+              "(lena's Context, a bare subclass, OrderedDict, collections.defaultdict with the factories "
+              "dict and int - item access creates absent items there), and the string form of update_recursively "
               "for 14 key strings x 19 kinds of explicit value on 171 dictionaries (thorough 927)")
 LEVEL_NOTE = ("holds for the enumerated families only (two keys, depth <= 3, eight leaf values); arguments "
               "whose equal sub-dictionaries are one object are included; arguments made of a dict subtype "
-              "(Context, a bare subclass, OrderedDict) are included for a small family of pairs only, not for "
-              "triples; dictionaries that alias each other across arguments before the call, non-string keys, "
-              "subtypes that override dictionary methods, and key strings with empty components are outside "
-              "the alphabet")
+              "(Context, a bare subclass, OrderedDict, defaultdict) are included for a small family of pairs only, "
+              "not for triples; dictionaries that alias each other across arguments before the call, non-string "
+              "keys, subtypes that override dictionary methods or answer for absent keys without storing them "
+              "(Counter), key strings with empty components, and the state of d after a call that raised "
+              "(update_nested with a recursive other) are outside the alphabet")
 TECHNIQUE = ("exhaustive enumeration of dictionary families on the real code against an independent reference "
              "model and differential laws (commutativity, associativity, idempotence, reconstruction, string form "
-             "= dictionary form, dict subtype = dict)")
+             "= dictionary form, dict subtype - with and without a __missing__ hook - = dict)")
